@@ -513,7 +513,7 @@ def _run_overlap(case, ctx):
         ctx.violation("%s:%s:%s" % (kind_l, feat, m[0]), m[1], depth=repr(darg), boundary=repr(barg),
                       chunks=case["chunks"], lazy_chunks=repr(r.chunks))
     ctx.count("lazy_meta_checked")
-    m = lazy_meta_mismatch(r, rv)
+    m = None if m else lazy_meta_mismatch(r, rv)      # a wrong computed shape is reported once
     if m:
         ctx.violation("%s:%s:%s" % (kind_l, feat, m[0]), m[1], depth=repr(darg), boundary=repr(barg),
                       chunks=case["chunks"], lazy_chunks=repr(r.chunks))
@@ -567,11 +567,12 @@ def _run_swv(case, ctx):
         ctx.violation("swv:%s:%s" % (feat, m[0]), m[1], chunks=case["chunks"], window=repr(window), axis=repr(axis),
                       lazy_chunks=repr(r.chunks))
     ctx.count("lazy_meta_checked")
-    m = lazy_meta_mismatch(r, rv)
+    bad = m is not None
+    m = None if bad else lazy_meta_mismatch(r, rv)    # a wrong computed shape is reported once
     if m:
         ctx.violation("swv:%s:%s" % (feat, m[0]), m[1], chunks=case["chunks"], window=repr(window), axis=repr(axis),
                       lazy_chunks=repr(r.chunks))
-    elif case["seed"] % 4 == 0:
+    elif not bad and case["seed"] % 4 == 0:
         ctx.count("blocks_checked")
         m = blocks_mismatch(r)
         if m:
